@@ -91,6 +91,7 @@ KINDS = [
     ("synchb", "random"), ("synchb", "bayesopt"), ("dehb",), ("pbt",), ("msr",), ("moasha",),
     ("synchb", "random", "max"), ("synchb_custom", "min"), ("synchb_custom", "max"), ("dehb", "max"),
     ("hb", "stopping", "bayesopt_dup"), ("hb", "promotion", "bayesopt_dup"), ("fifo", "bayesopt_cap"),
+    ("lss", "random"), ("lss", "bayesopt"), ("lss", "random_dup3"),
 ]
 CUSTOM_RUNGS = [
     [[(6, 1), (3, 2), (1, 5)], [(4, 2), (2, 5)], [(2, 5)]],
@@ -123,6 +124,15 @@ def make_scheduler(kind, seed):
             return HyperbandScheduler(rc_space, searcher="random", type=kind[1], metric="m", mode="min", resource_attr="epoch",
                                       max_resource_attr="epochs", grace_period=1, reduction_factor=3, brackets=1,
                                       random_seed=seed, search_options=rc_opts)
+        if kind[0] == "lss":
+            # multi-objective wrapper around a FIFOScheduler (2 metrics, linear scalarization)
+            from syne_tune.optimizer.schedulers.multiobjective import LinearScalarizedScheduler
+            if kind[1] == "random_dup3":
+                cs3 = {"x": choice(["a", "b", "c"]), "epochs": MAX_T}
+                return LinearScalarizedScheduler(cs3, metric=["m", "m2"], mode=["min", "min"], searcher="random", random_seed=seed,
+                                                 search_options={"allow_duplicates": True, "debug_log": False})
+            return LinearScalarizedScheduler(cs, metric=["m", "m2"], mode=["min", "min"], searcher=kind[1], random_seed=seed,
+                                             search_options=so if kind[1] == "bayesopt" else None)
         if kind[0] == "fifo" and kind[1] == "bayesopt_cap":
             # single-fidelity GP searcher with a small max_size_data_for_model: the state converter that down-samples the
             # data before every fit is active after a handful of completed trials
@@ -184,7 +194,15 @@ def make_scheduler(kind, seed):
 
 def no_repeat(kind):
     """searchers that promise not to suggest a configuration twice"""
-    return kind[0] in ("fifo",) or (kind[0] == "hb" and kind[1] in ("stopping", "promotion")) or kind[0].startswith("synchb")
+    return kind[0] in ("fifo", "lss") or (kind[0] == "hb" and kind[1] in ("stopping", "promotion")) or kind[0].startswith("synchb")
+
+
+def searcher_of(sch):
+    """the searcher of a scheduler, also behind a wrapper with a public base_scheduler"""
+    srch = getattr(sch, "searcher", None)
+    if srch is None and getattr(sch, "base_scheduler", None) is not None:
+        srch = getattr(sch.base_scheduler, "searcher", None)
+    return srch
 
 
 def observables(sch):
@@ -196,7 +214,7 @@ def observables(sch):
             out["rungs"] = [tuple(x) for x in term.information_for_rungs()]
         with contextlib.suppress(NotImplementedError):
             out["paused"] = sorted((str(a), int(d)) for (a, b, c, d) in term.paused_trials())
-    searcher = getattr(sch, "searcher", None)
+    searcher = searcher_of(sch)
     tr = getattr(searcher, "state_transformer", None)
     if tr is not None and getattr(tr, "state", None) is not None:
         st = tr.state
@@ -227,11 +245,26 @@ def run_placement(kind, seed, plan, nsteps, workers):
     counters = dict(started=0, resumed=0)
     call_name = ["?"]
 
+    ef_calls = []
+    srch_obj = searcher_of(sch)
+    if srch_obj is not None and hasattr(srch_obj, "evaluation_failed"):
+        _orig_ef = srch_obj.evaluation_failed
+
+        def _counting_ef(trial_id, _orig=_orig_ef):
+            ef_calls.append(str(trial_id))
+            return _orig(trial_id)
+
+        srch_obj.evaluation_failed = _counting_ef
+
     def do_fail(tid, placement):
         before = observables(sch)
+        n_ef = len(ef_calls)
         call_name[0] = "on_trial_error"
         sch.on_trial_error(trials[tid])
         after = observables(sch)
+        if srch_obj is not None and hasattr(srch_obj, "evaluation_failed") and kind[0] in ("fifo", "hb", "lss", "synchb", "synchb_custom", "pbt"):
+            if ef_calls[n_ef:] != [str(tid)]:
+                problems.append(("searcher_not_told_once_about_failure", placement, ef_calls[n_ef:], str(tid)))
         stats["errors"] += 1
         life[tid]["status"] = "failed"
         failed.append(tid)
@@ -526,7 +559,7 @@ def staged_sync(kind, seed):
     return dict(problems=problems, stats=stats)
 
 
-def directed_failed_after_report(kind, seed, nsug=14, before_report=False):
+def directed_failed_after_report(kind, seed, nsug=14, before_report=False, fail_index=1):
     """A trial reports the best value seen so far and then fails; the following suggestions (model-based phase) must not
     propose its configuration again -- also with allow_duplicates=True."""
     from syne_tune.backend.trial_status import Trial
@@ -535,6 +568,24 @@ def directed_failed_after_report(kind, seed, nsug=14, before_report=False):
     t0 = datetime.datetime(2020, 1, 1)
     problems, failed_cfg = [], None
     sink = io.StringIO()
+    ef_calls = []
+    srch_obj = searcher_of(sch)
+    if srch_obj is not None and hasattr(srch_obj, "evaluation_failed"):
+        _orig_ef = srch_obj.evaluation_failed
+
+        def _counting_ef(trial_id, _orig=_orig_ef):
+            ef_calls.append(str(trial_id))
+            return _orig(trial_id)
+
+        srch_obj.evaluation_failed = _counting_ef
+
+    def after_error(tid):
+        if srch_obj is not None and hasattr(srch_obj, "evaluation_failed") and ef_calls != [str(tid)]:
+            problems.append(("searcher_not_told_once_about_failure", "directed", list(ef_calls), str(tid)))
+        obs = observables(sch)
+        if "pending" in obs and any(p[0] == str(tid) for p in obs["pending"]):
+            problems.append(("pending_evaluations_wrong_after_failure", "directed", obs["pending"], str(tid)))
+
     try:
         with contextlib.redirect_stdout(sink):
             for i in range(nsug):
@@ -548,16 +599,18 @@ def directed_failed_after_report(kind, seed, nsug=14, before_report=False):
                 if failed_cfg is not None and hp(sug.config) == failed_cfg:
                     problems.append(("failed_configuration_suggested_again", failed_cfg, "suggestion #%d" % i))
                     break
-                if i == 1 and before_report:
+                if i == fail_index and before_report:
                     sch.on_trial_error(tr)
                     failed_cfg = hp(sug.config)
+                    after_error(i)
                     continue
-                d = sch.on_trial_result(tr, {"m": 0.01 if i == 1 else 0.2 + 0.7 * rng.random(), "m2": 0.5, "epoch": 1, "cost": 1.0})
-                if i == 1:
+                d = sch.on_trial_result(tr, {"m": 0.01 if i == fail_index else 0.2 + 0.7 * rng.random(), "m2": 0.5, "epoch": 1, "cost": 1.0})
+                if i == fail_index:
                     if d != "CONTINUE":
                         sch.on_trial_remove(tr)
                     sch.on_trial_error(tr)
                     failed_cfg = hp(sug.config)
+                    after_error(i)
                 elif d != "CONTINUE":
                     sch.on_trial_remove(tr)
                 else:
@@ -843,12 +896,16 @@ def _run(ctx, replay):
         # random searcher drawing from restrict_configurations (4 configurations) with allow_duplicates=True
         for kind in (("fifo", "random_rc_dup"), ("hb", "stopping", "random_rc_dup"), ("hb", "promotion", "random_rc_dup")):
             dd += [(kind, rng.randrange(10 ** 6)) for _ in range(ctx.n(4, 40))]
+        # multi-objective wrapper: failure before the first completion of the run
+        for kind in (("lss", "random_dup3"), ("lss", "bayesopt"), ("lss", "random")):
+            dd += [(kind, rng.randrange(10 ** 6)) for _ in range(ctx.n(3, 30))]
         # single-fidelity bayesopt run past max_size_data_for_model after a failure (before / after the first report)
         dd += [(("fifo", "bayesopt_cap"), rng.randrange(10 ** 6)) for _ in range(ctx.n(6, 60))]
     for kind, seed in dd:
         case = dict(part="F", kind=list(kind), seed=seed)
         probs = directed_failed_after_report(kind, seed, nsug=70 if kind[-1] == "random_rc_dup" else 14,
-                                             before_report=(kind[-1] == "bayesopt_cap" and seed % 2 == 0))
+                                             before_report=((kind[-1] == "bayesopt_cap" or kind[0] == "lss") and seed % 2 == 0),
+                                             fail_index=0 if kind[0] == "lss" else 1)     # lss: before any completion
         ctx.count(case, nontrivial=True)
         ctx.h("F_failed_after_report", "/".join(kind) + (":resuggested" if probs else ":ok"))
         for prob in probs:
